@@ -364,9 +364,10 @@ func (b *mkBuilder) page() string {
 	optout := ""
 	switch b.p.Optout {
 	case "true":
-		optout = `<meta name="IE_RM_OFF" content="true">`
+		optout = `<meta name="IE_RM_OFF" content="` + b.pick("true", "true", "TRUE", "True") + `">`
 	case "other":
-		optout = `<meta name="IE_RM_OFF" content="false">`
+		// anything but "true" does not opt out - also what other formats read as a truth value
+		optout = `<meta name="IE_RM_OFF" content="` + b.pick("false", "false", "0", "1", "t", "T", "no", "off", "") + `">`
 	}
 	if order%2 == 0 {
 		head = append([]string{optout}, head...)
@@ -596,7 +597,7 @@ func mkMeasure(doc *html.Node) (map[string]interface{}, map[string]int) {
 				if _, dup := ieVals[ln]; !dup {
 					ieVals[ln] = content
 				}
-				if name == "IE_RM_OFF" && content == "true" {
+				if name == "IE_RM_OFF" && strings.EqualFold(content, "true") {
 					optout = true
 				}
 			}
